@@ -79,6 +79,7 @@ type Sim struct {
 	open    statedb.WriteTxn // the write transaction in flight (aborted by Recover)
 	metrics *metricsRec
 	forceFull bool
+	bias      string // "", "grow", "shrink" (wide schemas)
 	gcChecks int
 	gcPauses int
 	nextN   uint64
@@ -121,6 +122,21 @@ func (s *Sim) Violate(class, key, f string, a ...any) {
 func (s *Sim) newN() uint64 { s.nextN++; return s.nextN }
 
 func (s *Sim) genID(sc Schema) []byte {
+	if sc.Wide {
+		// "", "a", "b", or a/b followed by one of 64 letters: the node under "a" walks through every node size
+		switch x := s.Rng.IntN(40); {
+		case x == 0:
+			return []byte{}
+		case x < 3:
+			return []byte{"ab"[s.Rng.IntN(2)]}
+		default:
+			first := byte('a')
+			if s.Rng.IntN(4) == 0 {
+				first = 'b'
+			}
+			return []byte{first, sc.IDAlphabet[s.Rng.IntN(len(sc.IDAlphabet))]}
+		}
+	}
 	if sc.UintIDs {
 		var b [8]byte
 		b[7] = byte(s.Rng.IntN(12))
@@ -390,7 +406,7 @@ func (s *Sim) guardFor(working *TableModel, cur MObj, exists bool) uint64 {
 func (s *Sim) writeOp(what string, wtxn statedb.WriteTxn, t *simTable, working *TableModel, locked bool) {
 	tbl := t.tbl
 	var id []byte
-	if ex, ok := s.pickExistingID(t, working); ok && s.Rng.IntN(100) < 55 {
+	if ex, ok := s.pickExistingID(t, working); ok && (s.Rng.IntN(100) < 55 && s.bias != "grow" || s.bias == "shrink") {
 		id = ex
 	} else {
 		id = s.genID(t.schema)
@@ -402,6 +418,14 @@ func (s *Sim) writeOp(what string, wtxn statedb.WriteTxn, t *simTable, working *
 		return
 	}
 	kind := s.Rng.IntN(100)
+	if t.schema.Wide && s.Rng.IntN(10) < 8 {
+		switch s.bias {
+		case "grow":
+			kind = s.Rng.IntN(42) // Insert / InsertWatch / Modify
+		case "shrink":
+			kind = 42 + s.Rng.IntN(18) // Delete
+		}
+	}
 	var (
 		opName  string
 		old     *Obj
@@ -625,6 +649,7 @@ func (s *Sim) RunTxn(i int) {
 		}
 	}
 	nops := s.Rng.IntN(s.O.MaxOps + 1)
+	s.bias = []string{"", "grow", "grow", "shrink"}[s.Rng.IntN(4)]
 	for j := 0; j < nops && !s.Failed; j++ {
 		t := set[s.Rng.IntN(len(set))]
 		if len(set) < len(s.Tabs) && s.Rng.IntN(12) == 0 {
